@@ -19,7 +19,7 @@ from dsim import refmodel as R
 
 ID = 'C03'
 LEVEL = 'exploration'
-CLASSES = [('wellformed', 5), ('spec_defect', 5)]
+CLASSES = [('wellformed', 4), ('writer_file', 2), ('spec_defect', 5)]
 RULE = ('seeded foreign-producer files (13+ encodings, shuffled options, '
         'optional options dropped incl. the main encoding, blank lines, CRLF '
         'headers, five JSON styles) read under drawn block sizes; class B '
@@ -141,6 +141,18 @@ def gen_defect(rng, data):
 
 
 def generate(rng, tier, cls):
+    if cls == 'writer_file':
+        # files from pydiffx's own writer are well-formed files too
+        main, ops = gen.gen_history(rng, big=rng.chance(0.05))
+        r = {'id': 'R1', 'kind': 'reader', 'file': 'f1'}
+
+        if rng.chance(0.5):
+            r['block_size'] = rng.choice([1, 2, 5, 13, 64, 95, 97, 200])
+
+        return {'actors': [{'id': 'P1', 'kind': 'writer', 'file': 'f1',
+                            'main_encoding': main, 'ops': ops}, r],
+                'schedule': [], 'faults': []}
+
     spec = gen.gen_foreign(rng, big=rng.chance(0.05))
     r = {'id': 'R1', 'kind': 'reader', 'file': 'f1'}
 
@@ -182,7 +194,19 @@ def state_of(rec, defect=None):
 def execute(scn, L):
     out = pipe.Outcome()
     pipe.run_noise(scn, L, out)
-    w = pipe.make_world(scn, L)
+    actors = []
+
+    for a in scn.get('actors', ()):
+        if a.get('kind') == 'writer':
+            a = pipe.effective_writer_spec(a)
+
+            if a is None:
+                out.discarded = 'outside-domain'
+                return out
+
+        actors.append(a)
+
+    w = pipe.make_world(scn, L, actors)
     w.run()
     out.absorb(w)
     readers = [a for a in w.actors.values() if a.kind == 'reader']
@@ -234,7 +258,8 @@ def execute(scn, L):
             R.header(r['section'], r['options']) + intact[he:ce]
             for r, (hs, he, ce) in zip(want_intact, spans))
 
-        if len(want_intact) >= 4 and intact != canonical:
+        if len(want_intact) >= 4 and (intact != canonical or
+                                      scn.get('class') == 'writer_file'):
             out.nontrivial = True
 
         if ra.spec.get('block_size') and ra.spec['block_size'] < 96:
